@@ -230,3 +230,72 @@ Proof.
   - destruct (polled + 1 =? attempts); discriminate.
   - discriminate.
 Qed.
+
+(* ------------------------------------------------------------------ *)
+(* C17: what a scan returns                                              *)
+
+Theorem scan_returns_iff : forall disabled ih hi min_age mtime f,
+  scan_returns disabled ih hi min_age mtime f = true <->
+  (disabled = false /\ fi_dir_skipped f = false /\
+   (ih = true \/ fi_hidden f = false) /\ fi_ignored f = false /\
+   (hi = false \/ fi_included f = true) /\ min_age <= fi_age f /\ fi_size f <> 0 /\
+   match fi_cached f with
+   | None => True
+   | Some (cs, ct) => cs <> fi_size f \/ ct <> mtime
+   end).
+Proof.
+  intros. unfold scan_returns. rewrite !andb_true_iff, !negb_true_iff, Z.leb_le, Z.eqb_neq.
+  assert (A : negb ih && fi_hidden f = false <-> (ih = true \/ fi_hidden f = false))
+    by (destruct ih, (fi_hidden f); simpl; split; intros; auto; try tauto; destruct H; discriminate).
+  assert (B : negb hi || fi_included f = true <-> (hi = false \/ fi_included f = true))
+    by (destruct hi, (fi_included f); simpl; split; intros; auto; try tauto; destruct H; discriminate).
+  assert (C : match fi_cached f with None => true | Some (cs, ct) => negb (cs =? fi_size f) || negb (ct =? mtime) end = true
+              <-> match fi_cached f with None => True | Some (cs, ct) => cs <> fi_size f \/ ct <> mtime end).
+  { destruct (fi_cached f) as [[cs ct]|]; [|tauto].
+    rewrite orb_true_iff, !negb_true_iff, !Z.eqb_neq. tauto. }
+  rewrite A, B, C. tauto.
+Qed.
+
+(* an unchanged file (same size and time as its cache entry) is never picked up again *)
+Theorem unchanged_not_requeued : forall disabled ih hi min_age mtime f,
+  fi_cached f = Some (fi_size f, mtime) -> scan_returns disabled ih hi min_age mtime f = false.
+Proof.
+  intros. destruct (scan_returns disabled ih hi min_age mtime f) eqn:E; auto.
+  apply scan_returns_iff in E. rewrite H in E. destruct E as [_ [_ [_ [_ [_ [_ [_ [E|E]]]]]]]]; congruence.
+Qed.
+
+(* ------------------------------------------------------------------ *)
+(* C07: the restart plan                                                 *)
+
+Theorem recover_sends_only_missing : forall done ign van chg hh m rs,
+  recover_decide done ign van chg hh m = PSendRanges rs -> m = Some rs /\ rs <> [] /\ done = false /\ chg = false.
+Proof.
+  intros done ign van chg hh m rs. unfold recover_decide.
+  destruct done; [discriminate|]. destruct ign; [discriminate|]. destruct van; [discriminate|].
+  destruct chg; [discriminate|]. destruct hh; simpl; [|discriminate].
+  destruct m as [[|r l]|]; try discriminate. intros E; inversion E; subst. repeat split; auto. discriminate.
+Qed.
+
+Theorem recover_never_forgets_unconfirmed : forall ign van chg hh m,
+  ign = false -> van = false -> chg = false -> hh = true ->
+  recover_decide false ign van chg hh m <> PSkip /\ recover_decide false ign van chg hh m <> PMarkDone.
+Proof.
+  intros ign van chg hh m -> -> -> ->. unfold recover_decide; simpl.
+  destruct m as [[|r l]|]; split; discriminate.
+Qed.
+
+Theorem recover_poll_never_releases_on_negative : forall code,
+  recover_after_poll code = QFinishAndPlaceholder -> code = POLL_WAITING \/ code = POLL_PASSED.
+Proof.
+  intros code. unfold recover_after_poll.
+  destruct ((code =? POLL_NONE) || (code =? POLL_FAILED)); [discriminate|].
+  destruct (code =? POLL_WAITING) eqn:W; [apply Z.eqb_eq in W; auto|].
+  destruct (code =? POLL_PASSED) eqn:P; [apply Z.eqb_eq in P; auto|]. discriminate.
+Qed.
+
+(* C03: once failures stop, a payload is completely forwarded: nothing stays in
+   the send loop *)
+Theorem send_loop_finishes_when_faults_stop : forall ps n acc f,
+  let r := send_loop (S f) ps [ETx n true] acc in
+  finished r = true /\ rest r = [] /\ forwarded r = forwarded acc ++ [ps].
+Proof. intros. simpl. auto. Qed.
